@@ -387,14 +387,31 @@ Fixpoint eval_sets (sc : schema) (sets : list (nat * ex)) (o : obj) : eres' :=
       else eval_sets sc rest o
   end.
 Definition assign (o : obj) (l : list (nat * attr)) : obj := fold_left (fun o' ca => set_attr o' (fst ca) (snd ca)) l o.
-(* value expressions that raise UnevaluatableError are not evaluated: the attribute is expired (to_expire) *)
-Definition expire_unevaluatable (sc : schema) (sets : list (nat * ex)) (o : obj) : obj :=
-  fold_left (fun o' cv => if check sc (snd cv) then o' else set_attr o' (fst cv) Expired) sets o.
-Definition apply_sets (sc : schema) (sets : list (nat * ex)) (o : obj) : ores :=
-  match eval_sets sc sets o with
-  | EvOk l => OOk (expire_unevaluatable sc sets (assign o l))
-  | EvRaise e => ORaise e
+(* SET targets whose value expression raises UnevaluatableError are not evaluated: the attribute is expired.
+   The code keeps ONE variable "to_expire" across the loop over the matched objects: before the loop it holds
+   the postfetch columns that are not evaluated (a column SET to a SQL expression is a postfetch column), at
+   the top of each iteration these attributes are expired - BEFORE the evaluable expressions are evaluated, so
+   an expression reading such an attribute sees it expired and the _EXPIRED_OBJECT marker is stored - and at
+   the end of the iteration it is overwritten with the un-evaluated SET attributes still present, which are
+   expired then and carried to the next object. *)
+Definition uneval_targets (sc : schema) (sets : list (nat * ex)) : list nat :=
+  map fst (filter (fun cv => negb (check sc (snd cv))) sets).
+Definition expire_attrs (cols : list nat) (o : obj) : obj :=
+  fun c => if existsb (Nat.eqb c) cols then Expired else o c.
+Definition present (o : obj) (c : nat) : bool := match o c with Expired => false | _ => true end.
+(* one iteration: [pre] = to_expire at the top; returns the object and to_expire for the next iteration *)
+Definition apply_sets_st (sc : schema) (sets : list (nat * ex)) (pre : list nat) (o : obj) : ores * list nat :=
+  let o1 := expire_attrs pre o in
+  match eval_sets sc sets o1 with
+  | EvOk l =>
+      let o2 := assign o1 l in
+      let post := filter (present o2) (uneval_targets sc sets) in
+      (OOk (expire_attrs post o2), post)
+  | EvRaise e => (ORaise e, pre)
   end.
+(* the first (or only) matched object *)
+Definition apply_sets (sc : schema) (sets : list (nat * ex)) (o : obj) : ores :=
+  fst (apply_sets_st sc sets (uneval_targets sc sets) o).
 
 Definition update_obj (sc : schema) (crit : ex) (sets : list (nat * ex)) (o : obj) : ores :=
   match matched sc crit o with
